@@ -447,6 +447,25 @@ def runCase (c : Case) : Verdict := Id.run do
                   if res != EBADF then oErr := some s!"operation on a closed file completed with {res}, not -EBADF"
                 else if res != twin || buf != twinbuf then
                   oErr := some s!"ring result ({res}, {buf}) differs from the synchronous API's ({twin}, {twinbuf})"
+    | .cqsync ring =>
+      if let some r := o.rings[ring]? then
+        if obsHead == "synced" then
+          let n := (obsToks.getD 1 "").toNat?.getD 0
+          let out_ := o.entries.toList.filter fun e => e.ring == ring && e.submitted && !e.done
+          -- completions that may be visible now: deadline passed, or produced at submit time
+          -- (rejected flags, cancels, targets of a submitted cancel)
+          let targeted := fun (e : OEntry) => o.entries.toList.any fun c =>
+            c.ring == ring && c.submitted && (match c.kind with | .cancel t => t == e.ud | _ => false)
+          let due := out_.filter fun e => e.at_ + e.lat ≤ o.now
+          let maybe := out_.filter fun e => e.at_ + e.lat ≤ o.now || targeted e
+          if r.dead || r.dropped then
+            if n != 0 then oErr := some s!"sync on a dead ring exposes {n} completions"
+          else
+            if n > maybe.length then
+              oErr := some s!"sync exposes {n} completions but only {maybe.length} submissions can have completed by {o.now}ns"
+            let anyCancel := o.entries.toList.any fun c => c.ring == ring && (match c.kind with | .cancel _ => true | _ => false)
+            if !anyCancel && n != due.length then
+              oErr := some s!"sync exposes {n} completions, {due.length} submissions are past their latency"
     | .advance ns => o := { o with now := o.now + ns }
     | .crash =>
       o := { o with rings := o.rings.map (fun r => { r with dead := true, sqCount := 0 }),
